@@ -19,7 +19,7 @@ import numpy as np
 
 VERIF = os.path.dirname(os.path.dirname(os.path.abspath(__file__)))
 REPO = os.environ.get('PB_BSS_REPO', '/repo')
-OUT = os.path.join(VERIF, 'out')
+OUT = os.environ.get('VERIF_OUT_DIR') or os.path.join(VERIF, 'out')
 
 
 # ----------------------------------------------------------------------------- JSON helpers
